@@ -493,6 +493,11 @@ func (c *UConn) Write(b []byte) (int, error) {
 }
 
 func (uconn *UConn) ApplyConfig() error {
+	// The offered ALPN protocols are exactly those of an ALPNExtension in uconn.Extensions (its
+	// writeToUConn sets the field again below). Forget what an extension that has since been
+	// removed from uconn.Extensions left behind, so that the client does not accept an ALPN
+	// protocol the re-marshaled ClientHello no longer offers.
+	uconn.HandshakeState.Hello.AlpnProtocols = nil
 	for _, ext := range uconn.Extensions {
 		err := ext.writeToUConn(uconn)
 		if err != nil {
